@@ -276,7 +276,7 @@ def plan(mu):
     prim = mu.get('primary') or []
     cand = [p for p in allp if COST.get(p, 99) <= 30 or p in prim[:3]]
     cand.sort(key=lambda p: (p not in prim, COST.get(p, 99)))
-    return cand[:3]
+    return cand[:5]
 
 
 def run_checks(job):
